@@ -143,3 +143,13 @@ pub fn vary(xml: &[u8], rng: &mut Rng) -> (Vec<u8>, Vec<&'static str>) {
     if rng.chance(1, 2) { s = between_tags(&s, rng); used.push("whitespace-and-comments"); }
     (s.into_bytes(), used)
 }
+
+/// the variations that leave time stamps alone (for documents that are already ISO-8601 throughout)
+pub fn vary_no_time(xml: &[u8], rng: &mut Rng) -> (Vec<u8>, Vec<&'static str>) {
+    let mut s = match String::from_utf8(xml.to_vec()) { Ok(s) => s, Err(_) => return (xml.to_vec(), vec![]) };
+    let mut used = Vec::new();
+    if rng.chance(1, 2) { s = expand_empty(&s, rng); used.push("empty-element-forms"); }
+    if rng.chance(1, 2) { s = unknown_elements(&s, rng); used.push("unknown-elements"); }
+    if rng.chance(1, 2) { s = between_tags(&s, rng); used.push("whitespace-and-comments"); }
+    (s.into_bytes(), used)
+}
